@@ -112,6 +112,12 @@ func init() {
 		arr.E[1] = ConstU(uint64(st.uuidSeq&0xff), 8)
 		return arr, true
 	}
+	// dialling a chain node: always fails in the model (no network); callers in scope propagate the error
+	dialFail := func(e *Engine, st *State, fn *ssa.Function, args []Value, retTo *ssa.Call) (Value, bool) {
+		return TupleV{Ptr{}, e.opaqueErr("dial: no network in the model")}, true
+	}
+	exact["github.com/ethereum/go-ethereum/ethclient.DialContext"] = dialFail
+	exact["github.com/ethereum/go-ethereum/ethclient.Dial"] = dialFail
 	exact["github.com/mr-tron/base58.Encode"] = opaqueString("base58")
 	exact["regexp.MustCompile"] = noop
 	exact["regexp.Compile"] = noop
